@@ -17,7 +17,12 @@ theorem continue_exactly_once (s : St) (h : Head) (fr : Framing) (last : Bool) (
            ((handle s h fr last a body bs fin).1.delivered.getLast?.map (·.readEnd)) ≠ some .pending) :
     (handle s h fr last a body bs fin).1.statuses =
       s.statuses ++ (if fr.expectContinue ∧ 0 < a.asReaderCalls then [100] else []) ++ Spec.finishStatus a.fin := by
-  sorry
+  rw [handle_eq] at hnb ⊢
+  simp only at hnb ⊢
+  by_cases hp : readEndOf (handleRead a body bs fin).2.1 = .pending
+  · simp [hp] at hnb
+  · simp only [hp, if_false]
+    split <;> simp [handleS3_statuses, handleS1_statuses]
 
 /-- the interim response is flushed immediately: a client waiting for it can send the body. -/
 theorem continue_is_flushed (s : St) (h : Head) (fr : Framing) (last : Bool) (a : Action) (body : Body)
@@ -25,24 +30,66 @@ theorem continue_is_flushed (s : St) (h : Head) (fr : Framing) (last : Bool) (a 
     (hm : printResp (Resp.empty 100) [] h.version h.headers true none = some msg) :
     ∃ rest, (handle s h fr last a body bs fin).1.out = s.out ++ msg ++ rest ∧
       (s.out ++ msg).length ≤ (handle s h fr last a body bs fin).1.flushed := by
-  sorry
+  have h1 : handleS1 s h fr a = s.emit 100 (some msg) true := by
+    simp [handleS1, hx, ha, hm]
+  rw [handle_eq]
+  simp only [h1]
+  split
+  · exact ⟨[], by simp [St.emit], by simp [St.emit]⟩
+  · have key : ∀ d, ∃ rest,
+        (handleS3 { s.emit 100 (some msg) true with
+            delivered := (s.emit 100 (some msg) true).delivered ++ [d] } h a.fin).out = s.out ++ msg ++ rest ∧
+        (s.out ++ msg).length ≤
+          (handleS3 { s.emit 100 (some msg) true with
+            delivered := (s.emit 100 (some msg) true).delivered ++ [d] } h a.fin).flushed := by
+      intro d
+      obtain ⟨rest, ho, hfl⟩ := handleS3_out { s.emit 100 (some msg) true with
+            delivered := (s.emit 100 (some msg) true).delivered ++ [d] } h a.fin (by simp [St.emit])
+      exact ⟨rest, by simpa [St.emit] using ho, by simpa [St.emit] using hfl⟩
+    split <;> exact key _
 
 /-- the Expect header is recognised in any letter case, and the request is then marked. -/
 theorem expect_recognised (hs : List Header) (e : Header) (fr : Framing)
     (he : findHeader hs b!"Expect" = some e) (hv : eqIgnoreCase e.value b!"100-continue" = true)
     (hf : framingOf hs = .ok fr) : fr.expectContinue = true := by
-  sorry
+  unfold framingOf at hf
+  simp only [he, hv] at hf
+  split at hf
+  · cases hf
+  · simp at hf; rw [← hf]
 
 /-- requests without the expectation never get an interim response. -/
 theorem no_expect_no_continue (hs : List Header) (fr : Framing)
     (he : findHeader hs b!"Expect" = none) (hf : framingOf hs = .ok fr) : fr.expectContinue = false := by
-  sorry
+  unfold framingOf at hf
+  simp only [he] at hf
+  split at hf
+  · cases hf
+  · simp at hf; rw [← hf]
 
 /-- the body of an expecting request is never consumed at parse time, so it is still to be read
     from the socket in full after the interim response. -/
 theorem expect_body_not_preread (hs : List Header) (fr : Framing)
     (hf : framingOf hs = .ok fr) (hx : fr.expectContinue = true) : ∀ n, fr.kind ≠ .buffered n := by
-  sorry
+  intro n hk
+  unfold framingOf at hf
+  split at hf
+  · cases hf
+  · cases hE : findHeader hs b!"Expect" with
+    | none =>
+      simp only [hE, Except.ok.injEq] at hf
+      subst hf
+      simp at hx
+    | some e =>
+      cases hV : eqIgnoreCase e.value b!"100-continue" with
+      | false => simp [hE, hV] at hf
+      | true =>
+        simp only [hE, hV, if_true, Except.ok.injEq] at hf
+        subst hf
+        revert hk
+        simp only [Bool.not_true, Bool.and_false]
+        repeat' split
+        all_goals simp_all
 
 example : (Conn.run b!"POST / HTTP/1.1\r\nexpect: 100-Continue\r\nContent-Length: 3\r\n\r\nabc" .eof
     (fun _ => ⟨2, 3, 1, .drop⟩)).statuses = [100, 500] := by decide
